@@ -151,6 +151,31 @@ def check_crash(inp):
       return f'after a torn write of round 2 the latest loadable checkpoint should be round 1, got {latest}'
 
 
+def check_state_types(inp):
+  """save_state / load_state and save_checkpoint / load_latest_checkpoint return the state with the SAME leaf types, dtypes and
+  values (float64, int64, Python ints beyond 32 bits, Python floats): a resumed run continues from exactly the saved state."""
+  state = {'acc': np.arange(3, dtype=np.float64) / 7, 'cnt': np.int64(2 ** 40 + 5), 'k': 2 ** 40 + 9, 'f': 0.1,
+           'w': np.ones(2, np.float32), 'flag': True, 'name': 'x'}
+  with tempfile.TemporaryDirectory() as root:
+    path = os.path.join(root, 'state')
+    serialization.save_state(state, path)
+    back = serialization.load_state(path)
+    checkpoint.save_checkpoint(root, state, 3, 1)
+    latest = checkpoint.load_latest_checkpoint(root)
+  for label, got in (('load_state', back), ('load_latest_checkpoint', latest[0] if latest else None)):
+    if got is None or set(got) != set(state):
+      return f'{label}: keys changed'
+    for k, v in state.items():
+      g = got[k]
+      if type(g) is not type(v):
+        return f'{label}: leaf {k!r} comes back as {type(g).__name__}, saved as {type(v).__name__}'
+      if isinstance(v, np.ndarray):
+        if g.dtype != v.dtype or not np.array_equal(g, v):
+          return f'{label}: array leaf {k!r} changed ({v.dtype} -> {g.dtype})'
+      elif g != v:
+        return f'{label}: leaf {k!r} changed from {v!r} to {g!r}'
+
+
 def sweep_crash(tier, seed):
   for cut in (-1, 0, 1, 10, 100, 10 ** 6):
     yield dict(cut=cut)
@@ -280,7 +305,7 @@ def sweep_resume(tier, seed):
     yield dict(num_rounds=n, ckpt_freq=cf, keep=keep, crashes=[['apply', 2], ['apply', 1], ['final', 1]])
 
 
-CHECKERS = {'paths': (check_paths, sweep_paths), 'keep': (check_keep, sweep_keep),
+CHECKERS = {'types': (check_state_types, lambda t, s: [dict()]), 'paths': (check_paths, sweep_paths), 'keep': (check_keep, sweep_keep),
             'crash': (check_crash, sweep_crash), 'resume': (check_resume, sweep_resume)}
 
 if __name__ == '__main__':
